@@ -70,6 +70,7 @@ structure Sh where
 inductive Call
   | tryPass (blocked : Bool)
   | complete (rt : Nat) (err : Bool)
+  | rollback          -- the exit hook of an entry that won a probe on this breaker and was blocked afterwards
 deriving DecidableEq, Repr
 
 /-- program counters: the name says which yield point the thread is parked at -/
@@ -102,6 +103,7 @@ deriving Repr
 def begin (cfg : Cfg) (s : Sh) (res : List Bool) : List Call → Sh × Th
   | [] => (s, ⟨.done, [], res⟩)
   | .tryPass blk :: r => (s, ⟨.tpGet blk, r, res⟩)
+  | .rollback :: r => (s, ⟨.rbCas, r, res⟩)
   | .complete rt err :: r =>
       let bad := if cfg.slowKind then decide (cfg.maxRt < rt) else err
       let s' := { s with bad := s.bad + (if bad then 1 else 0), total := s.total + 1 }
@@ -257,15 +259,17 @@ def walk (a : St) : List Note → Option St
   | [] => some a
   | n :: r => if n.prev = a ∧ legal n.prev n.to = true then walk n.to r else none
 
-/-! ## Several breaker objects: rule reloads
+/-! ## Several breaker objects: rule reloads, several breakers per resource
 
-`circuitbreaker.LoadRules` with a tuned rule replaces the resource's breaker by a **fresh, Closed** object
-(`BuildResourceCircuitBreaker`); when the new rule is stat-reusable the new object shares the *statistic* of the old
-one, nothing else; an equal rule keeps the old object.  Calls look the breaker up when they start
-(`getBreakersOfResource` in `Slot.Check` / `MetricStatSlot.OnCompleted`), so a call that is under way when the rule
-is reloaded keeps acting on the retired object.  In the model every object is a `Conf` of its own (its words, its
-monitors, the calls bound to it — each call is a one-call thread of that object); objects of the same `grp` share
-the statistic (`sync` copies the counters), all objects share the clock. -/
+`LoadRules` / `LoadRulesOfResource` hand the resource's rule list to `BuildResourceCircuitBreaker` together with a
+**copy** of the resource's current breaker list: a rule that `isEqualsTo` the rule of an old breaker keeps that object,
+any other rule gets a **fresh, Closed** object which shares the *statistic* of the first old breaker not yet taken
+(same strategy and statistic geometry in this harness, so every old breaker is stat-reusable) and nothing else; the new
+list is published in one assignment when the rebuild is complete.  Requests look the list up (a copy under the read
+lock) when `Slot.Check` / `MetricStatSlot.OnCompleted` start and walk over that snapshot, so a call that is under way
+when the rules are reloaded keeps acting on the objects it found.  In the model every object is a `Conf` of its own
+(its words, its monitors, the calls bound to it — each call is a one-call thread of that object); objects of the same
+`grp` share the statistic (`sync` copies the counters), all objects share the clock. -/
 
 structure Obj where
   cfg : Cfg
@@ -275,7 +279,8 @@ structure Obj where
 
 structure World where
   objs : List Obj := []
-  live : Nat := 0     -- index of the object new calls are bound to
+  cur : List Nat := []     -- the resource's published breaker list (indices into `objs`), in rule order
+  clock : Nat := 0
 
 def Obj.setStat (o : Obj) (b t : Nat) : Obj :=
   { o with conf := { o.conf with sh := { o.conf.sh with bad := b, total := t } } }
@@ -288,64 +293,131 @@ def World.sync (w : World) (k : Nat) : World :=
     { w with objs := w.objs.map fun p => if p.grp = o.grp then p.setStat o.conf.sh.bad o.conf.sh.total else p }
 
 def World.tick (w : World) (ms : Nat) : World :=
-  { w with objs := w.objs.map fun o => { o with conf := o.conf.tick ms } }
+  { w with objs := w.objs.map (fun o => { o with conf := o.conf.tick ms }), clock := w.clock + ms }
 
-/-- a call starts: it is bound to the live object, as a new (one-call) thread of that object;
-    returns the handle (object, thread) -/
-def World.bind (w : World) (c : Call) : World × Nat × Nat :=
-  match w.objs[w.live]? with
-  | none => (w, 0, 0)
+/-- a call starts on object `k`, as a new (one-call) thread of that object; returns the thread's index -/
+def World.bindOn (w : World) (k : Nat) (c : Call) : World × Nat :=
+  match w.objs[k]? with
+  | none => (w, 0)
   | some o =>
     let o' : Obj := { o with conf := ⟨(begin o.cfg o.conf.sh [] [c]).1, o.conf.th ++ [(begin o.cfg o.conf.sh [] [c]).2]⟩ }
-    ((World.mk (w.objs.set w.live o') w.live).sync w.live, w.live, o.conf.th.length)
+    (({ w with objs := w.objs.set k o' } : World).sync k, o.conf.th.length)
 
 /-- one step of the call `(k, j)` -/
 def World.step (w : World) (k j : Nat) : World :=
   match w.objs[k]? with
   | none => w
-  | some o => (World.mk (w.objs.set k { o with conf := o.conf.sched o.cfg j }) w.live).sync k
+  | some o => ({ w with objs := w.objs.set k { o with conf := o.conf.sched o.cfg j } } : World).sync k
 
-/-- a rule (re)load: `equal` (the old breaker's rule `isEqualsTo` the new one) keeps the object; otherwise a fresh
-    Closed object that shares only the statistic and the clock with the old one becomes the live one -/
-def World.reload (w : World) (cfg' : Cfg) (rid : Nat) (equal : Bool) : World :=
-  if equal then w else
-  match w.objs[w.live]? with
-  | none => { objs := w.objs ++ [⟨cfg', w.objs.length, rid, ⟨{}, []⟩⟩], live := w.objs.length }
-  | some o =>
-    { objs := w.objs ++ [⟨cfg', o.grp, rid, (Conf.mk ({ bad := o.conf.sh.bad, total := o.conf.sh.total } : Sh) []).tick o.conf.sh.clock⟩],
-      live := w.objs.length }
+/-- a rule of the list handed to the rule manager -/
+structure RuleE where
+  cfg : Cfg
+  rid : Nat
+
+/-- `BuildResourceCircuitBreaker`: `old` = the breakers of the (copied) old list not yet taken, `new` = the list built so far -/
+def rebuildAux (clock : Nat) : List RuleE → List Nat → List Obj → List Nat → List Obj × List Nat
+  | [], _, objs, new => (objs, new)
+  | r :: rs, old, objs, new =>
+    match old.find? (fun k => (objs[k]?).map (·.rid) == some r.rid) with
+    | some k => rebuildAux clock rs (old.erase k) objs (new ++ [k])          -- equal rule: the object is kept
+    | none =>
+      match old with
+      | k :: old' =>                                                          -- tuned rule: fresh object on the first remaining statistic
+        let b := match objs[k]? with | some o => o.conf.sh.bad | none => 0
+        let t := match objs[k]? with | some o => o.conf.sh.total | none => 0
+        let g := match objs[k]? with | some o => o.grp | none => objs.length
+        rebuildAux clock rs old'
+          (objs ++ [⟨r.cfg, g, r.rid, (Conf.mk ({ bad := b, total := t } : Sh) []).tick clock⟩]) (new ++ [objs.length])
+      | [] =>                                                                 -- nothing to reuse: fresh object, fresh statistic
+        rebuildAux clock rs [] (objs ++ [⟨r.cfg, objs.length, r.rid, (Conf.mk ({} : Sh) []).tick clock⟩]) (new ++ [objs.length])
+
+/-- a complete rule load: rebuild from the current list, then publish -/
+def World.rebuild (w : World) (rules : List RuleE) : World :=
+  { w with objs := (rebuildAux w.clock rules w.cur w.objs []).1, cur := (rebuildAux w.clock rules w.cur w.objs []).2 }
 
 /-- what a thread of the harness does, one after the other -/
 inductive WCall
-  | call (c : Call)
-  | reload (cfg : Cfg) (rid : Nat)     -- LoadRules with the rule `rid` (one more yield point of the harness: `cb.x.reload`)
+  | check (forceBlock : Bool)            -- Slot.Check on a fresh entry, then Exit (forceBlock: a later slot blocks the request)
+  | complete (rt : Nat) (err : Bool)     -- MetricStatSlot.OnCompleted
+  | load (rules : List RuleE) (noop : Bool) (nx : Nat)
+      -- LoadRules / LoadRulesOfResource, parked at `cb.x.reload` before; noop: the list is DeepEqual to the current
+      -- rules (nothing happens); nx: yield points `cb.x.rebuild` met inside the rebuild (pass-through rules of a custom
+      -- strategy whose generator yields) — the new list is published after the last of them
 
-/-- a thread of the harness: the call under way (bound to an object when it started), or parked before a reload -/
+inductive Phase
+  | idle
+  | checking (rest hooks : List Nat) (fb : Bool)   -- TryPass under way; breakers still to ask; probes won so far
+  | rolling (rest : List Nat)                      -- exit hooks (rollbacks) under way
+  | completing (rest : List Nat) (rt : Nat) (err : Bool)
+  | loading (rules : List RuleE) (noop : Bool) (nx : Nat)   -- parked at cb.x.reload
+  | rebuilding (rules : List RuleE) (left : Nat)            -- parked at cb.x.rebuild
+
+/-- a thread of the harness -/
 structure WT where
-  cur : Option (Nat × Nat) := none
-  atReload : Option (Cfg × Nat) := none
+  cur : Option (Nat × Nat) := none     -- the breaker call under way: (object, thread of that object)
+  phase : Phase := .idle
   todo : List WCall := []
-  res : List Bool := []
+  res : List Bool := []                -- results of its checks (admitted?)
 
-/-- move on to the next item of the program: a call is looked up (bound to the live object) and runs its prelude -/
-def advance (w : World) (t : WT) : World × WT :=
-  match t.todo with
-  | [] => (w, { t with cur := none, atReload := none })
-  | .call c :: r => ((w.bind c).1, { t with cur := some ((w.bind c).2.1, (w.bind c).2.2), atReload := none, todo := r })
-  | .reload cfg rid :: r => (w, { t with cur := none, atReload := some (cfg, rid), todo := r })
+/-- move on to the next item of the program; a check / completion takes its snapshot of the published list here -/
+def advance (w : World) (res : List Bool) : List WCall → World × WT
+  | [] => (w, { res := res })
+  | .check fb :: r =>
+    match w.cur with
+    | [] => advance w (res ++ [true]) r
+    | k :: ks => ((w.bindOn k (.tryPass false)).1,
+                  { cur := some (k, (w.bindOn k (.tryPass false)).2), phase := .checking ks [] fb, todo := r, res := res })
+  | .complete rt err :: r =>
+    match w.cur with
+    | [] => advance w res r
+    | k :: ks => ((w.bindOn k (.complete rt err)).1,
+                  { cur := some (k, (w.bindOn k (.complete rt err)).2), phase := .completing ks rt err, todo := r, res := res })
+  | .load rules noop nx :: r => (w, { phase := .loading rules noop nx, todo := r, res := res })
 
-def World.liveRid (w : World) : Option Nat := (w.objs[w.live]?).map (·.rid)
+/-- run the exit hooks (probe rollbacks) of a blocked entry, then move on -/
+def startRoll (w : World) (t : WT) : List Nat → World × WT
+  | [] => advance w t.res t.todo
+  | h :: r => ((w.bindOn h .rollback).1, { t with cur := some (h, (w.bindOn h .rollback).2), phase := .rolling r })
+
+/-- the breaker call `(k, j)` of thread `t` has returned (`b`: its TryPass result, `won`: it won the probe) -/
+def afterCall (w : World) (t : WT) (k : Nat) (b won : Bool) : World × WT :=
+  match t.phase with
+  | .checking rest hooks fb =>
+    if b then
+      let hooks' := if won then hooks ++ [k] else hooks
+      match rest with
+      | k2 :: ks => ((w.bindOn k2 (.tryPass false)).1,
+                     { t with cur := some (k2, (w.bindOn k2 (.tryPass false)).2), phase := .checking ks hooks' fb })
+      | [] => if fb then startRoll w { t with res := t.res ++ [true] } hooks'
+              else advance w (t.res ++ [true]) t.todo
+    else startRoll w { t with res := t.res ++ [false] } hooks
+  | .rolling rest => startRoll w t rest
+  | .completing rest rt err =>
+    match rest with
+    | k2 :: ks => ((w.bindOn k2 (.complete rt err)).1,
+                   { t with cur := some (k2, (w.bindOn k2 (.complete rt err)).2), phase := .completing ks rt err })
+    | [] => advance w t.res t.todo
+  | _ => advance w t.res t.todo
 
 /-- one schedule entry for a harness thread -/
 def WT.step (w : World) (t : WT) : World × WT :=
-  match t.atReload with
-  | some (cfg, rid) => advance (w.reload cfg rid (w.liveRid == some rid)) t
-  | none =>
+  match t.phase with
+  | .loading rules noop nx =>
+    if noop then advance w t.res t.todo
+    else if nx = 0 then advance (w.rebuild rules) t.res t.todo
+    else (w, { t with phase := .rebuilding rules nx })
+  | .rebuilding rules left =>
+    if left ≤ 1 then advance (w.rebuild rules) t.res t.todo
+    else (w, { t with phase := .rebuilding rules (left - 1) })
+  | _ =>
     match t.cur with
     | none => (w, t)
     | some (k, j) =>
-      match ((w.step k j).objs[k]?).bind (fun o => o.conf.th[j]?) with
-      | some th => if th.pc = .done then advance (w.step k j) { t with res := t.res ++ th.res } else (w.step k j, t)
+      match ((w.step k j).objs[k]?).bind (fun o => (o.conf.th[j]?).map fun th => (th, o.conf.sh.admits)) with
+      | some (th, adm) =>
+        if th.pc = .done then
+          afterCall (w.step k j) t k (th.res.getLast?.getD false) (adm.getLast? == some (j, How.probeWin))
+        else (w.step k j, t)
       | none => (w.step k j, t)
 
 structure WConf where
@@ -368,8 +440,6 @@ def wrun (c : WConf) : List Ent → WConf
 /-- start a batch of harness threads, in thread-id order -/
 def wstart (w : World) : List (List WCall) → World × List WT
   | [] => (w, [])
-  | p :: ps =>
-      let r := advance w { todo := p }
-      ((wstart r.1 ps).1, r.2 :: (wstart r.1 ps).2)
+  | p :: ps => ((wstart (advance w [] p).1 ps).1, (advance w [] p).2 :: (wstart (advance w [] p).1 ps).2)
 
 end Sentinel.BreakerRace
